@@ -7,6 +7,8 @@ modelled natives (Model/Ledger/NativeSys.lean).
   net <csize> <vcount> <n> <pub0> … <pubn-1> -> ok
   proto <mtb> <vubi> <mspb>                  -> ok      (protocol configuration: genesis values of the settings)
   genesis | endblock | final                 -> <obs A> | <obs B>
+      mgmt=<tok>=<id>:<upd>:<cached manifest object>/<id>:<upd>:<stored manifest item> …: the restarted replica's cache
+      is Manifest.FromStackItem of the stored item (Model/Ledger/Mgmt.lean `init`)
   block <h> <primary>                        -> ok
   tx s=<tok,…> c=<m:i.j.k|-> <kind> <args…> [oog]  -> halt true | halt false | halt | fault | skip  (replica A)
       the committee setters (policy.setAttributeFee … neo.setGasPerBlock, role.designate) are PREDICTED by the guarded
@@ -20,6 +22,7 @@ import NeoModel.Model.Ledger.NativeSys
 import NeoModel.Model.Ledger.Whitelist
 import NeoModel.Model.Ledger.Components
 import NeoModel.Model.Ledger.Guarded
+import NeoModel.Model.Ledger.Mgmt
 open NeoModel NeoModel.Ledger NeoModel.Ledger.Natives NeoModel.Ledger.Components NeoModel.Ledger.Guarded
 
 structure DState where
@@ -39,15 +42,15 @@ structure DState where
   setB : Comp.CNode (List (Nat × Int)) (List (Nat × Int)) := { store := [], cache := [], height := 0 }
   roleA : Comp.CNode RoleStore RoleCache := { store := [], cache := gdesignate.init [], height := 0 }
   roleB : Comp.CNode RoleStore RoleCache := { store := [], cache := gdesignate.init [], height := 0 }
-  mgA : Comp.CNode MgmtStore (List (Nat × (Int × Nat))) := { store := { contracts := [], nextId := 1 }, cache := [], height := 0 }
-  mgB : Comp.CNode MgmtStore (List (Nat × (Int × Nat))) := { store := { contracts := [], nextId := 1 }, cache := [], height := 0 }
+  mgA : Comp.CNode Mgmt.MStore Mgmt.MCache := { store := Mgmt.emptyStore, cache := fun _ => none, height := 0 }
+  mgB : Comp.CNode Mgmt.MStore Mgmt.MCache := { store := Mgmt.emptyStore, cache := fun _ => none, height := 0 }
   setTxs : List (CTx (GCall GSetOp)) := []
   roleTxs : List (CTx (GCall DesOp)) := []
   gpbTxs : List (CTx (GCall Int)) := []
   mdTxs : List (CTx (GCall Int)) := []
   mdA : Comp.CNode Int Unit := { store := 1000000000, cache := (), height := 0 }   -- defaultMinimumDeploymentFee (management.go:816)
   mdB : Comp.CNode Int Unit := { store := 1000000000, cache := (), height := 0 }
-  mgTxs : List (CTx MgmtOp) := []
+  mgTxs : List (CTx Mgmt.MOp) := []
   mgToks : List String := []      -- tokens of contracts whose deployment was part of a block
   gpbA : Comp.CNode (List (Nat × Int)) (List (Nat × Int)) := { store := [(0, 500000000)], cache := [(0, 500000000)], height := 0 }   -- genesis record (native_neo.go:345-349)
   gpbB : Comp.CNode (List (Nat × Int)) (List (Nat × Int)) := { store := [(0, 500000000)], cache := [(0, 500000000)], height := 0 }
@@ -131,15 +134,136 @@ def rolesStr (s : DState) (n : Comp.CNode RoleStore RoleCache) : String :=
     let cnt := (n.store.filter fun e => e.1.1 == r).length
     s!"{r}={c}/{st}:{cnt}")
 
-def mgmtStr (s : DState) (n : Comp.CNode MgmtStore (List (Nat × (Int × Nat)))) : String :=
+-- ContractManagement with manifests (Model/Ledger/Mgmt.lean) -----------------------------------------------------------
+open NeoModel.Flags.MF in
+/-- contract number ↦ the 20 bytes permissions mention -/
+def hash20 (n : Nat) : Bytes :=
+  List.replicate 16 0 ++ [UInt8.ofNat (n / 16777216), UInt8.ofNat (n / 65536), UInt8.ofNat (n / 256), UInt8.ofNat n]
+
+def numOfHash (b : Bytes) : Nat :=
+  match b.drop 16 with
+  | [a, b, c, d] => a.toNat * 16777216 + b.toNat * 65536 + c.toNat * 256 + d.toNat
+  | _ => 0
+
+/-- key index ↦ 33 bytes standing for the compressed key -/
+def key33 (i : Nat) : Bytes := [2] ++ List.replicate 31 0 ++ [UInt8.ofNat i]
+
+def mgmtParams : Mgmt.Params := Mgmt.driverParams hash20
+
+def kvxMethods : List String :=
+  ["put", "del", "get", "putAbort", "putThrow", "fill", "ver", "update", "destroy", "_deploy", "onNEP17Payment", "forward"]
+
+def strBytes (t : String) : Bytes := t.toUTF8.toList
+def bytesStr (b : Bytes) : String := String.ofList (b.map fun c => Char.ofNat c.toNat)
+
+open NeoModel.Flags.MF in
+def parseDesc (s : DState) (t : String) : DState × Desc :=
+  if t == "*" then (s, .wildcard)
+  else if t.startsWith "h" then
+    let (s, a) := acctOf s (dropS t 1)
+    (s, .hash (hash20 (acctId a)))
+  else (s, .group (key33 ((dropS t 1).toNat?.getD 0)))
+
+open NeoModel.Flags.MF in
+/-- `p=… t=… g=… s=…` of a kv.deploy / kv.update line ↦ the manifest object (name = the contract token) -/
+def parseMan (s : DState) (tok : String) (ws : List String) : DState × Man :=
+  let field (pre : String) : String := match ws.find? (·.startsWith pre) with | some f => dropS f pre.length | none => "-"
+  let (s, perms) := (if field "p=" == "-" then [] else (field "p=").splitOn ";").foldl (fun (acc : DState × List Perm) e =>
+    match e.splitOn ":" with
+    | [d, ms] =>
+      let (s', desc) := parseDesc acc.1 d
+      let methods : Option (List Bytes) := if ms == "*" then none else if ms == "-" then some [] else some ((ms.splitOn "+").map strBytes)
+      (s', acc.2 ++ [⟨desc, methods⟩])
+    | _ => acc) (s, [])
+  let tf := field "t="
+  let (s, trusts) : DState × Trusts :=
+    if tf == "*" then (s, ⟨none, true⟩)
+    else if tf == "-" then (s, ⟨some [], false⟩)
+    else
+      let (s', ds) := (tf.splitOn ",").foldl (fun (acc : DState × List Desc) e =>
+        let (s'', d) := parseDesc acc.1 e
+        (s'', acc.2 ++ [d])) (s, [])
+      (s', ⟨some ds, false⟩)
+  let gf := field "g="
+  let groups : List Group := if gf == "-" then [] else (gf.splitOn ",").map fun g => ⟨key33 (g.toNat?.getD 0), List.replicate 64 0⟩
+  let sf := field "s="
+  let safe : List String := if sf == "-" then [] else sf.splitOn "+"
+  let methods : List Method := kvxMethods.map fun n => ⟨strBytes n, 0, [], 0xff, safe.contains n⟩
+  (s, { name := strBytes tok, groups := some groups, features := [0x7b, 0x7d], standards := [], methods := methods,
+        events := [], perms := perms, trusts := trusts, extra := [] })
+
+open NeoModel.Flags.MF in
+/-- the manifest ContractManagement itself is registered with (natives live in the same cache): everything callable -/
+def nativeMgmtMan : Man :=
+  { name := strBytes "ContractManagement", groups := some [], features := [0x7b, 0x7d], standards := [],
+    methods := ["deploy", "update", "destroy"].map fun n => ⟨strBytes n, 0, [], 0xff, false⟩,
+    events := [], perms := [⟨.wildcard, none⟩], trusts := ⟨some [], false⟩, extra := [] }
+
+open NeoModel.Flags.MF in
+def descStr (s : DState) : Desc → String
+  | .wildcard => "*"
+  | .hash h => "h" ++ tokOf s (Acct.other (numOfHash h))
+  | .group k => s!"g{(k.getLast?.getD 0).toNat}"
+
+def methodsStr (ms : Option (List Bytes)) : String :=
+  match ms with
+  | none => "*"
+  | some [] => "-"
+  | some l => "+".intercalate (l.map bytesStr)
+
+open NeoModel.Flags.MF in
+/-- what the consensus-relevant readers see of a cached manifest OBJECT: permissions|trusts|groups|safe methods -/
+def manObjStr (s : DState) (m : Man) : String :=
+  let ps := m.perms.map fun p => s!"{descStr s p.contract}:{methodsStr p.methods}"
+  let t := if m.trusts.wildcard then "*" else match m.trusts.value.getD [] with
+    | [] => "-"
+    | l => ",".intercalate (l.map (descStr s))
+  let gs := (m.groups.getD []).map fun g => toString (g.key.getLast?.getD 0).toNat
+  let ss := (m.methods.filter (·.safe)).map fun x => bytesStr x.name
+  s!"{joinOr ";" ps}|{t}|{joinOr "," gs}|{joinOr "+" ss}"
+
+open NeoModel.Flags.MF in
+def descItemStr (s : DState) : Item → String
+  | .null => "*"
+  | .bytes b => if b.length == 20 then "h" ++ tokOf s (Acct.other (numOfHash b)) else s!"g{(b.getLast?.getD 0).toNat}"
+  | _ => "?"
+
+open NeoModel.Flags.MF in
+/-- the same from the STORED stack item, read structurally (not through the decoder) -/
+def manItemStr (s : DState) : Item → String
+  | .struct [_, .array gs, _, _, .struct [.array ms, _], .array ps, t, _] =>
+    let pstr := ps.map fun p => match p with
+      | .struct [d, .null] => s!"{descItemStr s d}:*"
+      | .struct [d, .array xs] =>
+        let names := xs.filterMap fun x => match x with | .bytes b => some b | _ => none
+        s!"{descItemStr s d}:{methodsStr (some names)}"
+      | _ => "?"
+    let tstr := match t with
+      | .null => "*"
+      | .array [] => "-"
+      | .array l => ",".intercalate (l.map (descItemStr s))
+      | _ => "?"
+    let gstr := gs.filterMap fun g => match g with
+      | .struct [.bytes k, _] => some (toString (k.getLast?.getD 0).toNat)
+      | _ => none
+    let sstr := ms.filterMap fun m => match m with
+      | .struct [.bytes n, _, _, _, .bool true] => some (bytesStr n)
+      | _ => none
+    s!"{joinOr ";" pstr}|{tstr}|{joinOr "," gstr}|{joinOr "+" sstr}"
+  | _ => "?"
+
+def mgmtStr (s : DState) (n : Comp.CNode Mgmt.MStore Mgmt.MCache) : String :=
   let ents := (sortStr s.mgToks).map fun t =>
     let id := match s.toks.find? (·.1 == t) with
       | some (_, a) => acctId a
       | none => 0
-    let f := fun (o : Option (Int × Nat)) => match o with
-      | some (i, u) => s!"{i}:{u}"
+    let c := match n.cache id with
+      | some r => s!"{r.id}:{r.upd}:{manObjStr s r.man}"
       | none => "-"
-    s!"{t}={f (aget n.cache id)}/{f (aget n.store.contracts id)}"
+    let st := match n.store.contracts id with
+      | some r => s!"{r.id}:{r.upd}:{manItemStr s r.man}"
+      | none => "-"
+    s!"{t}={c}/{st}"
   s!"{joinOr "," ents} next={n.store.nextId}"
 
 def parseCommittee (s : DState) (t : String) : Option (Nat × List Key) :=
@@ -156,7 +280,7 @@ structure CompOps where
   role : Option (GCall DesOp) := none
   gpb : Option (GCall Int) := none
   md : Option (GCall Int) := none
-  mgmt : Option MgmtOp := none
+  mgmt : List Mgmt.MOp := []
 
 def compOpsOf (s : DState) (ws : List String) : DState × CompOps :=
   match ws with
@@ -176,15 +300,24 @@ def compOpsOf (s : DState) (ws : List String) : DState × CompOps :=
     | "role.designate", r :: ns :: _ =>
       let nodes := if ns == "-" then [] else (ns.splitOn ".").map fun x => rankOf s (x.toNat?.getD 0)
       (s, { role := some ⟨⟨parseInt r, nodes⟩, w⟩ })
-    | "kv.deploy", c :: _ =>
+    | "kv.deploy", c :: rest =>
       let (s, a) := acctOf s c
-      ({ s with mgToks := if s.mgToks.contains c then s.mgToks else c :: s.mgToks }, { mgmt := some (.deploy (acctId a)) })
-    | "kv.update", c :: _ =>
+      let (s, m) := parseMan s c rest
+      ({ s with mgToks := if s.mgToks.contains c then s.mgToks else c :: s.mgToks }, { mgmt := [.deploy (acctId a) m] })
+    | "kv.update", c :: rest =>
+      -- the contract's own `update` method calls ContractManagement.update: needs the permission, then the update
       let (s, a) := acctOf s c
-      (s, { mgmt := some (.update (acctId a)) })
+      let (s, mg) := acctOf s "mgmt"
+      let (s, mo) := if rest.head? == some "keep" then (s, none) else (let (s', m) := parseMan s c rest; (s', some m))
+      (s, { mgmt := [.call (acctId a) (acctId mg) (strBytes "update"), .update (acctId a) mo] })
     | "kv.destroy", c :: _ =>
       let (s, a) := acctOf s c
-      (s, { mgmt := some (.destroy (acctId a)) })
+      let (s, mg) := acctOf s "mgmt"
+      (s, { mgmt := [.call (acctId a) (acctId mg) (strBytes "destroy"), .destroy (acctId a)] })
+    | "kv.forward", a :: b :: m :: _ =>
+      let (s, x) := acctOf s a
+      let (s, y) := acctOf s b
+      (s, { mgmt := [.call (acctId x) (acctId y) (strBytes m)] })
     | _, _ => (s, {})
   | _ => (s, {})
 
@@ -216,7 +349,7 @@ def gpbStr (g : Comp.CNode (List (Nat × Int)) (List (Nat × Int))) (next : Nat)
   s!"{c}/{joinOr ";" recs}"
 
 def compsStr (s : DState) (sn : Comp.CNode (List (Nat × Int)) (List (Nat × Int))) (rn : Comp.CNode RoleStore RoleCache)
-    (mn : Comp.CNode MgmtStore (List (Nat × (Int × Nat)))) (g : Comp.CNode (List (Nat × Int)) (List (Nat × Int)))
+    (mn : Comp.CNode Mgmt.MStore Mgmt.MCache) (g : Comp.CNode (List (Nat × Int)) (List (Nat × Int)))
     (md : Comp.CNode Int Unit) (height : Nat) : String :=
   s!"set={settingsStr sn} roles={rolesStr s rn} mgmt={mgmtStr s mn} mdf={minDeployFee md.store}/{md.store} gpb={gpbStr g (height + 1)}"
 
@@ -263,7 +396,7 @@ def parseTx (s : DState) (ws : List String) : DState × Option Tx :=
     | "policy.unblock", [a] =>
       let (s, x) := acctOf s a
       mk s (.unblock x)
-    | "kv.deploy", [c] =>
+    | "kv.deploy", c :: _ =>
       let (s, x) := acctOf s c
       mk s (.deploy x)
     | "kv.destroy", [c] =>
@@ -279,7 +412,7 @@ def parseTx (s : DState) (ws : List String) : DState × Option Tx :=
     | "policy.removeWhitelistFeeContract", c :: _ =>
       let (s, x) := acctOf s c
       mk s (.about x true)
-    | "kv.update", [c] =>
+    | "kv.update", c :: _ =>
       let (s, x) := acctOf s c
       mk s (.about x false)
     | "fault", [] => mk s .fault
@@ -323,7 +456,12 @@ def dstep (s : DState) (ws : List String) : DState × String :=
     let csz := cs.toNat?.getD 1
     let cfg : Cfg := { committeeSize := csz, validators := vc.toNat?.getD 1, standby := rk.take csz }
     let g := genesisNode cfg (Acct.other 0)
-    ({ s with cfg := cfg, nkeys := n.toNat?.getD 0, rank := rk, a := g, b := g }, "ok")
+    let s := { s with cfg := cfg, nkeys := n.toNat?.getD 0, rank := rk, a := g, b := g }
+    -- ContractManagement itself is a record of the contract cache / storage (id -1)
+    let (s, mg) := acctOf s "mgmt"
+    let st : Mgmt.MStore := { contracts := Mgmt.upd Mgmt.emptyStore.contracts (acctId mg) (some ⟨-1, 0, nativeMgmtMan.toItem mgmtParams.compact⟩), nextId := 1 }
+    let n0 : Comp.CNode Mgmt.MStore Mgmt.MCache := { store := st, cache := Mgmt.upd (fun _ => none) (acctId mg) (some ⟨-1, 0, nativeMgmtMan⟩), height := 0 }
+    ({ s with mgA := n0, mgB := n0 }, "ok")
   | ["proto", mtb, vubi, mspb] =>
     let st := genesisSettings (parseInt mtb) (parseInt vubi) (parseInt mspb)
     let n : Comp.CNode (List (Nat × Int)) (List (Nat × Int)) := { store := st, cache := gsettings.init st, height := 0 }
@@ -334,6 +472,15 @@ def dstep (s : DState) (ws : List String) : DState × String :=
     match parseTx s rest with
     | (s, none) => (s, "bad-op")
     | (s, some tx) =>
+      -- ContractManagement component first: deploy validity, the permission the contract's own update / destroy method
+      -- needs to call ContractManagement, the permission check of a forwarded call — decided on replica A's CACHED
+      -- manifest objects; a refused call FAULTs the transaction for the main model too
+      let (s, co) := compOpsOf s rest
+      let oog := rest.getLast? == some "oog"
+      let mgOk : Bool := co.mgmt.isEmpty ||
+        ((Mgmt.management mgmtParams).runBlockR s.mgA.store s.mgA.cache (s.mgA.height + 1)
+          (s.mgTxs ++ [({ ops := co.mgmt, halts := true } : CTx Mgmt.MOp)])).getLast? == some true
+      let tx : Tx := if mgOk then tx else { tx with op := .fault }
       -- result as replica A computes it: run the block so far on A's view
       let txs := s.pending ++ [tx]
       let r := match s.a.read () with
@@ -356,8 +503,6 @@ def dstep (s : DState) (ws : List String) : DState × String :=
       -- whitelist panic turns a committee-gated no-op into a fault, which has no modelled effect either
       -- cached components: one transaction per line; the outcome of calls the main model does not predict
       -- ("skip") is taken from the real result noted on the line
-      let (s, co) := compOpsOf s rest
-      let oog := rest.getLast? == some "oog"
       -- guarded components: the outcome is PREDICTED by running the block so far plus this transaction on replica A's
       -- component state, in the environment replica A's natives part supplies (cached committee after OnPersist)
       let e := envOfNode s s.a
@@ -387,8 +532,9 @@ def dstep (s : DState) (ws : List String) : DState × String :=
           let txs' := s.mdTxs ++ [tx]
           ({ s with mdTxs := txs' }, predict ((gmindeploy.fix e).runBlockR s.mdA.store s.mdA.cache hC txs').getLast?)
         | none => (s, r)
-      -- ContractManagement: the outcome of deploy / update / destroy is the main model's prediction
-      let s := match co.mgmt with | some o => { s with mgTxs := s.mgTxs ++ [({ ops := [o], halts := r.startsWith "halt" } : CTx MgmtOp)] } | none => s
+      -- ContractManagement: the transaction halts if the component AND the main model (existence, oog) say so
+      let r := if co.mgmt.isEmpty then r else if !mgOk then "fault" else if r == "skip" then (if oog then "fault" else "halt") else r
+      let s := if co.mgmt.isEmpty then s else { s with mgTxs := s.mgTxs ++ [({ ops := co.mgmt, halts := r.startsWith "halt" } : CTx Mgmt.MOp)] }
       ({ s with pending := txs, wlPending := s.wlPending ++ [wo] }, r)
   | ["endblock"] =>
     -- the environments are those of the caches BEFORE the block (OnPersist of this block is part of envOf)
@@ -402,12 +548,12 @@ def dstep (s : DState) (ws : List String) : DState × String :=
                       roleA := gdesignate.estep s.roleA (.block eA s.roleTxs), roleB := gdesignate.estep s.roleB (.block eB s.roleTxs),
                       gpbA := gpb.estep s.gpbA (.block eA s.gpbTxs), gpbB := gpb.estep s.gpbB (.block eB s.gpbTxs),
                       mdA := gmindeploy.estep s.mdA (.block eA s.mdTxs), mdB := gmindeploy.estep s.mdB (.block eB s.mdTxs),
-                      mgA := management.cstep s.mgA (.block s.mgTxs), mgB := management.cstep s.mgB (.block s.mgTxs),
+                      mgA := (Mgmt.management mgmtParams).cstep s.mgA (.block s.mgTxs), mgB := (Mgmt.management mgmtParams).cstep s.mgB (.block s.mgTxs),
                       setTxs := [], roleTxs := [], mgTxs := [], gpbTxs := [], mdTxs := [] }
     (s, obsBoth s)
   | ["restartB"] => ({ s with b := step (nativeSys s.cfg) s.b .restart, wlB := wlApply s.wlB [.restart],
                                setB := gsettings.estep s.setB .restart, roleB := gdesignate.estep s.roleB .restart,
-                               mgB := management.cstep s.mgB .restart, gpbB := gpb.estep s.gpbB .restart,
+                               mgB := (Mgmt.management mgmtParams).cstep s.mgB .restart, gpbB := gpb.estep s.gpbB .restart,
                                mdB := gmindeploy.estep s.mdB .restart }, "ok")
   | ["flushB"] => ({ s with b := step (nativeSys s.cfg) s.b .flush }, "ok")
   | ["final"] => (s, obsBoth s)
